@@ -73,6 +73,8 @@ pub struct Cx {
     pub sim_ms: u64,
     pub states: BTreeSet<u64>,
     pub steps: u64,
+    /// number of judged cases when one run judges many (e.g. crash images); 0 = the run itself
+    pub evals: u64,
 }
 
 impl Cx {
@@ -98,7 +100,7 @@ impl Cx {
         *self.probes.entry(site.to_string()).or_insert(0) += 1;
     }
     pub fn state(&mut self, h: u64) {
-        if self.states.len() < 4096 {
+        if self.states.len() < 65536 {
             self.states.insert(h);
         }
     }
@@ -264,6 +266,7 @@ pub async fn barrier() {
 
 #[derive(Default, Clone)]
 pub struct Stats {
+    pub evals: u64,
     pub runs: u64,
     pub nontrivial_runs: u64,
     pub faults: BTreeMap<String, u64>,
@@ -278,6 +281,7 @@ pub struct Stats {
 impl Stats {
     fn absorb(&mut self, cx: &Cx) {
         self.runs += 1;
+        self.evals += cx.evals.max(1);
         for (k, v) in &cx.faults {
             *self.faults.entry(k.to_string()).or_insert(0) += v;
         }
@@ -303,6 +307,7 @@ impl Stats {
     }
     pub fn merge(&mut self, o: &Stats) {
         self.runs += o.runs;
+        self.evals += o.evals;
         self.nontrivial_runs += o.nontrivial_runs;
         for (k, v) in &o.faults {
             *self.faults.entry(k.clone()).or_insert(0) += v;
@@ -610,6 +615,7 @@ pub fn finish_check(out: CheckOut, tier: Tier, seed: u64, wall: Instant) -> i32 
             json!({
                 "scenario": b.scenario,
                 "runs": b.stats.runs,
+                "evaluations": b.stats.evals,
                 "runs_requested": b.runs_requested,
                 "wall_s": (b.wall_s * 1000.0).round() / 1000.0,
                 "runs_per_hour": if b.wall_s > 0.0 { (b.stats.runs as f64 / b.wall_s * 3600.0) as u64 } else { 0 },
@@ -628,7 +634,8 @@ pub fn finish_check(out: CheckOut, tier: Tier, seed: u64, wall: Instant) -> i32 
         .collect();
     let rule = out.batches.iter().map(|b| format!("[{}] {}", b.scenario, b.rule)).collect::<Vec<_>>().join(" ");
     let mut coverage = serde_json::Map::new();
-    coverage.insert("evaluations".into(), json!(total.runs));
+    coverage.insert("evaluations".into(), json!(total.evals));
+    coverage.insert("runs".into(), json!(total.runs));
     coverage.insert("distinct_nontrivial".into(), json!(total.nontrivial_distinct.len()));
     coverage.insert(
         "rule".into(),
